@@ -726,6 +726,26 @@ class Explorer:
             if gd3 != gd:
               self.V('1-graphdef-iso', self.hist, 'graphdef',
                      'the rebuilt (isomorphic) graph has a different graphdef')
+            else:
+              # what split returns is a snapshot: editing the graph it was taken from (here the
+              # rebuilt copy g2, metadata of every Variable) changes neither the definition nor
+              # what merge builds from it
+              h3 = hash(gd3)
+              Variable = self.R['Variable']
+              probed = [n for _, n in nnx.iter_graph(g2) if isinstance(n, Variable)]
+              for v in probed:
+                v.zz_probe_split = 1
+              if probed and (gd3 != gd or hash(gd3) != h3):
+                self.V('1-graphdef-snapshot', self.hist, 'graphdef',
+                       'a graph definition changed (== / hash) when the graph it was taken from '
+                       'was edited afterwards')
+              elif probed:
+                ok4, g4 = self.call('1-graphdef', self.hist, 'graphdef', nnx.merge, gd3, st)
+                if ok4 and any('zz_probe_split' in n.get_metadata()
+                               for _, n in nnx.iter_graph(g4) if isinstance(n, Variable)):
+                  self.V('1-graphdef-snapshot', self.hist, 'graphdef',
+                         'merge built Variables carrying metadata that was added to the source '
+                         'graph after the split')
     self.res['transitions'] += 1
     self.untouched('graphdef')
 
